@@ -35,6 +35,7 @@ func caseGen() *rapid.Generator[Case] {
 		if rapid.IntRange(0, 2).Draw(t, "pre?") == 0 {
 			c.Pre = 1 + rapid.IntRange(0, len(c.Script.Ops)).Draw(t, "pre")
 		}
+		c.File = gen.Rarely(t, "file", 12)
 		if rapid.IntRange(0, 3).Draw(t, "fault?") == 0 {
 			c.Fault = 1 + rapid.IntRange(0, 12).Draw(t, "fault")
 		}
